@@ -27,7 +27,7 @@ TIMEOUT = {"quick": 900, "thorough": 7000}
 
 def cases(tier, seed):
     out = []
-    n = 96 if tier == "quick" else 3840
+    n = 96 if tier == "quick" else 11520
     for i in range(n):
         out.append({"seed": seed, "idx": i, "source": "synthetic", "_cost": 1})
     for i in range(8 if tier == "quick" else 48):
